@@ -6,6 +6,7 @@ From RecordUpdate Require Import RecordSet.
 From SV Require Import Base.Base IR.State IR.NS IR.Ops Xform.Clone Xform.Strs Xform.Xform Proofs.AssocX Proofs.Frame Proofs.Inv1a Proofs.Inv2a
   Proofs.InvP Proofs.InvW Proofs.C01_full Proofs.Fresh Proofs.NsInv Proofs.CloneInv Proofs.RefK Proofs.CloneRef Proofs.CloneT Proofs.FieldT
   Proofs.CloneMemo Proofs.CloneRR Proofs.CloneFaith Proofs.CloneInvP.
+From SV Require Import Proofs.UniqFresh.
 Import ListNotations RecordSetNotations.
 
 (* fields that registration and the re-applied naming policy leave alone *)
@@ -143,13 +144,11 @@ Proof.
   { intro Hok. split; [apply HI; exact Hok|]. split; [apply HTc; exact Hok|]. split; [apply HF; exact Hok|].
     split; [apply HFT; exact Hok|apply (proj2 (HR Hok))]. }
   intros x1 U1.
-  set (named := match get_str (st x1) d str_NAME with Some nm => _ | None => _ end).
+  set (named := rename_block x1 lib d d').
   assert (Hn : UPF named).
-  { unfold named. destruct (get_str (st x1) d str_NAME) as [nm|]; [|intros _; exact U1].
-    cbv zeta. destruct (fresh_ctr _ _ _ _ _ _) as [k|]; [|intro H; discriminate].
-    apply (upf_dict_set (mkX (st x1) (S k) (flat_ctr x1))); [exact U1|]. intros x3 U3.
-    destruct (get_str (st x3) d' str_IDENT) as [idv|]; [|intros _; exact U3].
-    apply upf_dict_set; [exact U3|]. intros x4 U4 _. exact U4. }
+  { unfold UPF. destruct named as [x5 e] eqn:Eb. cbn [fst snd]. intros ->.
+    apply (rename_block_post UF x1 lib d d' x5 U1); [|exact Eb].
+    intros s0 k0 v0 _ H0 _. eapply uf_struct; [apply se_dict_set|exact H0]. }
   destruct named as [x5 [e|]]; [intro H; discriminate|].
   assert (U5 : UF (st x5)) by (apply Hn; reflexivity).
   apply upf_liftR.
